@@ -12,6 +12,7 @@ tied to the real-valued Coq model by a Qed-closed R-lemma  |model(args) - observ
         log_pdet, batches, null-space shifts.  prec = H diag(lam) H^T with a rational orthogonal H
         (product of Householder reflections of integer vectors); the model is evaluated in the
         eigen-coordinates  c = H^T (x - loc)  computed exactly with Fractions
+  mvnm  the same observation for dim <= 3, stated at matrix level: Coq multiplies out (x-loc) (H diag(lam) H^T) (x-loc)^T
   mvns  MultivariateNormalDegenerate.sample: the linear map z -> sample - loc is recovered from the
         captured standard normal draws; the diagonal of  H^T A A^T H  is tied to sqrt_pcov_diag^2
 
@@ -34,7 +35,7 @@ from .common import lst, blit, natlit, rlit
 
 HEADER = """From Coq Require Import Reals List.
 From Interval Require Import Tactic.
-From LV Require Import Analytic.Sigmoid Analytic.Copula Analytic.MvnDegen Analytic.CorrC18.
+From LV Require Import Analytic.Sigmoid Analytic.Copula Analytic.MvnDegen Analytic.MvnMatrix Analytic.CorrC18.
 Import ListNotations.
 Open Scope R_scope.
 """
@@ -694,6 +695,9 @@ def gen_mvn(ctx, rnd, cases):
                                 + (".tol=custom" if g["tol"] else "") + (".nullshift" if g["points"][p]["shift_of"] is not None else "")
                                 + (".family" if ref is not None else ""))
                 cases.append(c)
+                if g["dim"] <= 3 and p == 0 and g["refl"]:
+                    cases.append({"kind": "mvnm", "group": g, "e": e, "p": p,
+                                  "stratum": f"mvnm.matrix_level.{g['ctor']}.dim={g['dim']}"})
     ctx.tested_not_proved.append(
         f"MultivariateNormalDegenerate.log_prob: batch of points vs single point on {n_single} values: "
         f"{n_single_diff} differences > 1e-12; eager vs jax.jit on {n_jit} values: max relative difference {jit_max:.2e}")
@@ -724,9 +728,19 @@ def oracle_mvn(c):
         if abs(obs - ref) > 1e-9 * max(1.0, abs(ref)):
             return (f"constructors disagree: log_prob = {obs}, but from_penalty(var, pen) without rank / log_pdet gives {ref} "
                     f"for the same precision matrix and point ({describe_mvn(c)})")
-    if not g["spec"]:
-        return None
     lam = mvn_elem_lam(g, e)
+    if not g["spec"]:
+        if g["tol"] and g["ctor"] == "plain" and g["rk"] is None and g["lp"] is None:
+            # documented meaning of `tol`: eigenvalues <= tol are treated as zeros in rank and log_pdet
+            t = pf(g["tol"])
+            cs = mvn_coords(g, e, p)
+            r = sum(1 for x in lam if x > t)
+            want = 0.5 * (-sum(float(x) * float(ci) ** 2 for x, ci in zip(lam, cs))
+                          - (r * math.log(2 * math.pi) - sum(math.log(float(x)) for x in lam if x > t)))
+            if abs(obs - want) > 1e-8 * max(1.0, abs(want)):
+                return (f"log_prob = {obs}, but with eigenvalues <= tol = {float(t)} treated as zeros in rank and log_pdet "
+                        f"(documented meaning of tol) it is {want} ({describe_mvn(c)})")
+        return None
     want = range_gaussian(lam, mvn_coords(g, e, p))
     if abs(obs - want) > 1e-8 * max(1.0, abs(want)):
         return (f"log_prob = {obs} but the Gaussian log-density on the range space of the precision matrix is {want} "
@@ -739,11 +753,29 @@ def describe_mvn(c):
     el = g["elems"][e]
     extra = {k: el[k] for k in ("var", "smooth") if k in el}
     return (f"constructor={g['ctor']} dim={g['dim']} eigenvalues={el['lam']} {extra} rank_arg={g['rk']} "
-            f"log_pdet_arg={'given' if g['lp'] else None} batch={g['batch']} element={e} x={g['points'][p]['x']} loc={el['loc']}")
+            f"log_pdet_arg={'given' if g['lp'] else None} tol={g['tol']} batch={g['batch']} element={e} x={g['points'][p]['x']} loc={el['loc']}")
 
 
 def stmt_mvn(c):
     g, e, p = c["group"], c["e"], c["p"]
+    v = pf(g["obs"][p][e])
+    return f"close (logpdf {mvn_dist_term(g, e)} (vec {rl(mvn_coords(g, e, p))})) {rlit(v)} {rlit(tol_for(v))}", "c18_close"
+
+
+def stmt_mvnm(c):
+    """matrix level: Coq multiplies out  (x - loc) (H diag(lam) H^T) (x - loc)^T  itself"""
+    g, e, p = c["group"], c["e"], c["p"]
+    H = make_H(g["refl"], g["dim"])
+    x = [pf(t) for t in g["points"][p]["x"]]
+    loc = [pf(t) for t in g["elems"][e]["loc"]]
+    xc = [a - b for a, b in zip(x, loc)]
+    v = pf(g["obs"][p][e])
+    rows = lst(rl(r) for r in H)
+    return (f"close (logpdf_matrix {mvn_dist_term(g, e)} (matl {rows}) (vec {rl(xc)})) {rlit(v)} {rlit(tol_for(v))}",
+            "c18_close")
+
+
+def mvn_dist_term(g, e):
     el = g["elems"][e]
     lam = [pf(t) for t in el["lam"]]
     lp = None
@@ -756,8 +788,7 @@ def stmt_mvn(c):
         dist = f"(mvn_pen {rl(lam)} {rlit(pf(el['var']))} {optnat(g['rk'])} {optr(lp)})"
     else:
         dist = f"(mvn_smooth {rl(lam)} {rlit(pf(el['smooth']))} {optnat(g['rk'])} {optr(lp)})"
-    v = pf(g["obs"][p][e])
-    return f"close (logpdf {dist} (vec {rl(mvn_coords(g, e, p))})) {rlit(v)} {rlit(tol_for(v))}", "c18_close"
+    return dist
 
 
 # ----------------------------------------------------------------------------------------------
@@ -882,9 +913,9 @@ def oracle_mvns(c):
     M = r["M"]
     for j in range(g["dim"]):
         w = want[i] if i == j else 0.0
-        if g["spec"] and abs(M[i][j] - w) > 1e-7 * scale:
+        if abs(M[i][j] - w) > 1e-7 * scale:
             return (f"covariance of the samples in eigen-coordinates ({i},{j}) is {M[i][j]}, the pseudo-inverse of the precision "
-                    f"matrix has {w} ({describe_mvns(c)})")
+                    f"matrix (eigenvalues < tol treated as zeros) has {w} ({describe_mvns(c)})")
     return None
 
 
@@ -963,7 +994,7 @@ def case_key(c):
         return (k, c["rho"], c["u"], c["v"], c["validate"], c["batched"])
     if k == "ctor":
         return (k, tuple(c["rhos"]), c["validate"])
-    if k == "mvn":
+    if k in ("mvn", "mvnm"):
         g = c["group"]
         return (k, id(g), c["e"], c["p"])
     return (k, id(c["group"]), c["e"], c["i"])
@@ -1012,8 +1043,9 @@ def generate(ctx):
     return cases
 
 
-STMT = {"sig": stmt_sig, "cop": stmt_cop, "ctor": stmt_ctor, "mvn": stmt_mvn, "mvns": stmt_mvns}
-ORACLE = {"sig": oracle_sig, "cop": oracle_cop, "ctor": oracle_ctor, "mvn": oracle_mvn, "mvns": oracle_mvns}
+STMT = {"sig": stmt_sig, "cop": stmt_cop, "ctor": stmt_ctor, "mvn": stmt_mvn, "mvnm": stmt_mvnm, "mvns": stmt_mvns}
+ORACLE = {"sig": oracle_sig, "cop": oracle_cop, "ctor": oracle_ctor, "mvn": oracle_mvn, "mvns": oracle_mvns,
+          "mvnm": lambda c: None}     # same observation as the sibling "mvn" case, judged there
 
 
 def statement(c):
@@ -1107,7 +1139,8 @@ def rerun(c):
         c["obs"] = ctor_outcome([pf(r) for r in c["rhos"]], c["validate"], c["batched"])
     elif k == "cop":
         c["obs"] = enc(run_cop([pf(c["rho"])], [(pf(c["u"]), pf(c["v"]))], c["validate"], c["batched"])[0])
-    elif k == "mvn":
+    elif k in ("mvn", "mvnm"):
+        c["kind"] = "mvn"
         g = c["group"]
         out, _, _ = mvn_run(g)
         g["obs"] = [[enc(v) for v in row] for row in out]
